@@ -35,7 +35,10 @@ RULE = ('helpers: every length n in 0..6 x value patterns (distinct floats, NaN/
         'compared with the reference evaluation on the CURRENT series (and the version of the array eval is bound to with '
         'the Lean history model); (7) layout variants of every kind of expression that Python\'s eval accepts and that cannot '
         'change the value: leading blanks / tabs, trailing blanks / newline, redundant parentheses, newlines and line '
-        'continuation inside parentheses, wide operators. distinct = distinct (function, array, shift, fill) or distinct '
+        'continuation inside parentheses, wide operators; (8) dtype-sensitive expressions over int64 / uint8 / int32 / bool / '
+        'float32 / str series (integer division, %, bit operations, ~, boolean masks, an int series as index, comparisons, '
+        'integers beyond 2**53, mixed-dtype arithmetic, helpers on int / bool / str series): result dtype, shape and bytes '
+        'equal NumPy on the stored series, same error class. distinct = distinct (function, array, shift, fill) or distinct '
         '(span type, length, expression); non-trivial = the call returns a value')
 TRUSTED = ['NumPy float64 subtraction is IEEE-754 (mirrored by Lean Float in the driver instance); np.log is an input '
            'to the dlog model (the harness sends NumPy\'s own log values)',
@@ -1011,6 +1014,80 @@ def check_histories(ctx, rep):
                 rep.disagree('eval after a history: version of the series the name is bound to, model != impl', case, reply, ver)
 
 
+# ---- dtype-sensitive expressions: "what Python/NumPy computes with every name bound to its series" ----------------------
+
+DT_VARS = [('N', [4, 1, 2, 0, 3, 5], np.int64), ('U', [250, 1, 2, 0, 3, 5], np.uint8), ('FLAG', [True, False, True, True, False, True], bool),
+           ('X', [1.5, 2.5, -3.0, 4.0, 0.5, 6.0], float), ('H', [1.5, 100000.25, 0.1, 4.0, 1e-10, 6.0], np.float32),
+           ('S', ['ab', 'c', 'de', 'f', 'gh', 'i'], '<U2'), ('BIG', [2 ** 53 + 1, 2 ** 62 + 1, -(2 ** 53) - 1, 7, 8, 9], np.int64),
+           ('J', [1, 0, 2, 1, 0, 2], np.int32)]
+DT_EXPRS = [
+    'N', 'U', 'FLAG', 'H', 'S', 'BIG', 'N // 2', 'N % 3', 'N & 1', 'N | 8', 'N << 2', 'N >> 1', 'N ^ J', '~FLAG', '~N',
+    'FLAG & (N > 1)', 'FLAG | ~FLAG', 'X[FLAG]', 'N[FLAG]', 'X[N[0]]', 'X[J]', 'X[J[1]:N[0]]', 'N > 2', 'N == J', 'S == "c"',
+    'BIG - 2**53', 'BIG + 1', 'BIG // 3', 'N * X', 'N * 2', 'N / 2', 'N ** 2', 'U + 250', 'U * U', '-N', 'abs(-N)', 'H * 2',
+    'H + X', 'H + N', 'sum(FLAG)', 'sum(N)', 'N[0] + N[-1]', 'N[1:3] * J[1:3]', 'FLAG[0]', 'int(N[2]) * "ab"', 'S + S',
+    'lag(N, 1, fill_value=0)', 'lead(U, 2, fill_value=9)', 'diff(N, 1, fill_value=0)', 'lag(FLAG, 1, fill_value=False)',
+    'lag(S, 1, fill_value="")', 'N[`{l1}`]', 'N[`{l1}`:`{l2}`] // 2', 'X[FLAG][0] + N[`{l0}`]', 'BIG[`{l0}`] - 2**53',
+    '(N + J) % 2 == 0', 'FLAG * 1', 'N.dtype', 'U.astype(int) + 250', 'X[N // 2]',
+]
+
+
+def check_dtypes(ctx, rep):
+    """Result dtype AND values equal what NumPy computes on the stored series; same error class."""
+    kinds = ['range', 'list_str', 'period_Q', 'np_int', 'pd_int'] if ctx.tier == 'quick' else bc.span_kinds()
+    for kind in kinds:
+        if kind == 'mixed':
+            continue
+        for objtype in ('container', 'model', 'pandas_model', 'linker'):
+            for n in (3, 6):
+                span = bc.make_span(kind, n)
+                texts = bc.label_texts(kind, span)
+                if any(t is None for t in texts[:3]):
+                    continue
+                c = make_object(objtype, kind, n, span=span, names=[])
+                for nm, vals, dt in DT_VARS:
+                    c.add_variable(nm, vals[:n], dtype=dt)
+                for tmpl in DT_EXPRS:
+                    expr = tmpl.format(l0=texts[0], l1=texts[1], l2=texts[2])
+                    ref = tmpl.format(l0='@0', l1='@1', l2='@2').replace('`@0`', '0').replace('`@1`:`@2`', '1:3').replace('`@1`', '1')
+                    case = {'kind': 'eval-dtype', 'span_kind': kind, 'objtype': objtype, 'n': n, 'expr': expr, 'ref': ref}
+                    dtype_oracle(case, c, rep)
+                    rep.case(('dtype', kind, objtype, n, tmpl), nontrivial=True)
+
+
+def dtype_oracle(case, c, rep):
+    ns = dict(F.builtins)
+    ns.update({k: v.copy() for k, v in series_of(c).items()})
+    with warnings.catch_warnings():
+        warnings.simplefilter('ignore')
+        try:
+            want = ('ok', eval(case['ref'], {'np': np}, ns))  # noqa: S307
+        except Exception as e:  # noqa: BLE001
+            want = ('exc', e)
+    before, bbefore = state_of(c), builtins_state()
+    tag, got = run_eval(c, case['expr'])
+    if state_of(c) != before or builtins_state() != bbefore:
+        bc.violate(rep, 'eval-mutates-container', 'state changed by eval()', case)
+    if want[0] == 'exc':
+        ok = tag == 'exc' and type(got) is type(want[1])
+        rep.dist['eval-dtype:reference-raises'] += 1
+    else:
+        w, g = want[1], got
+        ok = tag == 'ok' and type(g) is type(w)
+        if ok and isinstance(w, (np.ndarray, np.generic)):
+            ok = g.dtype == w.dtype and g.shape == w.shape and (
+                np.asarray(g).tobytes() == np.asarray(w).tobytes() or values_equal(g, w))
+        elif ok:
+            ok = bool(g == w)
+    if not ok:
+        def show(t, v):
+            if t == 'exc':
+                return f'{type(v).__name__}: {v}'
+            return f'{np.asarray(v).tolist()!r} ({getattr(v, "dtype", type(v).__name__)})'
+        bc.violate(rep, 'eval-dtype-mismatch', f'eval({case["expr"]!r}) on a {case["objtype"]} = {show(tag, got)}; NumPy on the '
+                   f'stored series gives {show(*want)}'[:500], case)
+    rep.dist['eval-dtype:' + ('holds' if ok else 'wrong')] += 1
+
+
 # ---- pandas partial-string labels (a year in a quarterly PeriodIndex, a month in a daily DatetimeIndex) -------------------
 
 PARTIAL = [
@@ -1159,6 +1236,7 @@ def run(ctx, rep):
     check_errors(ctx, rep)
     check_undefined(ctx, rep)
     check_partial(ctx, rep)
+    check_dtypes(ctx, rep)
     check_histories(ctx, rep)
     check_ns(ctx, rep)
     rep.exhaustive = False
@@ -1200,6 +1278,12 @@ def _replay(ctx, rep, case):
                 bc.violate(rep, 'eval-precedence', f'resolved to {who}, expected {want}', case)
         if bchanged:
             bc.violate(rep, 'eval-mutates-helper-table', 'fsic.functions.builtins changed by eval()', case)
+    elif k == 'eval-dtype':
+        span = bc.make_span(case['span_kind'], case['n'])
+        c = make_object(case['objtype'], case['span_kind'], case['n'], span=span, names=[])
+        for nm, vals, dt in DT_VARS:
+            c.add_variable(nm, vals[:case['n']], dtype=dt)
+        dtype_oracle(case, c, rep)
     elif k == 'eval-history':
         print('  stale evaluations:', run_history(case, rep))
     elif k == 'eval-undefined' and 'names' in case:
